@@ -34,6 +34,8 @@ FRAGMENTS = ['{', '}', '[', ']', '$', '$$', '\\[', '\\]', '\\(', '\\)', '&', '\\
              # long repetitions: counters, label generators, rotating collections and nesting stacks must not run out
              '\\begin{enumerate}\\begin{enumerate}' + '\\item x ' * 30, '\\begin{enumerate}' * 7 + '\\item a',
              '\\begin{itemize}' + '\\item ' * 60, '$x$ ' * 15, '\\[a\\] ' * 10, '\\footnote{a}' * 12, '{' * 40 + 'x' + '}' * 40,
+             # a parameter character followed by digits that are no decimal digits
+             '#\u00b2', '#\u2460', '#\u2081', '#\u0663', '#\uff12', '\\def\\x#\u00b9{#\u00b9}', '\\newcommand{\\x}[1]{#\u00b3}\\x{a}',
              # keys given without a value
              '\\newglossaryentry{x}{name=a, description}', '\\newglossaryentry{x}{description,name={a}}\\gls{x}',
              '\\gls@defglossaryentry{x}{name,text,plural,first,description}\\gls{x} \\Glspl{x} \\glsdesc{x} \\GLS{x}',
